@@ -920,3 +920,102 @@ Proof.
   - destruct (sign_fix_rev_no_panic k bits value len Hb Hl) as [v' Hv'].
     destruct (put_bits k bits data offset value len v' Hb Hl Ho ltac:(lia) Hbd Hv') as [d' [E _]]. rewrite E. discriminate.
 Qed.
+
+(** ---------- the range of what Parser::parse returns ---------- *)
+Lemma sign_fix_range k bits v len r : 8 <= bits -> 1 <= len <= bits -> canon k bits v ->
+  (forall m, len <= m < bits -> Z.testbit v m = false) ->
+  sign_fix k bits v len = Ok r -> representable k len r.
+Proof.
+  intros Hb Hl Hc Hhigh H.
+  pose proof (pow2_pos (len - 1) ltac:(lia)) as Hp. pose proof (pow2_half len ltac:(lia)) as Hhl. pose proof (pow2_half bits ltac:(lia)) as Hhb.
+  (* v mod 2^bits is below 2^len *)
+  assert (Hu : v mod 2 ^ bits < 2 ^ len).
+  { apply lt_pow2_of_bits; [apply Z.mod_pos_bound; lia|lia|]. intros m Hm. rewrite testbit_mod_pow2 by lia.
+    destruct (Z.ltb_spec m bits); cbn [andb]; [apply Hhigh; lia|reflexivity]. }
+  pose proof (Z.mod_pos_bound v (2 ^ bits) ltac:(lia)) as Hmod.
+  destruct k; cbn [sign_fix representable] in *.
+  - inversion H; subst r. apply canon_range in Hc; [|lia]. unfold cmin, cmax in Hc. cbn [signed_kind] in Hc.
+    rewrite Z.mod_small in Hu by lia. lia.
+  - unfold usub in H. destruct (Z.leb_spec 1 len) as [_|]; [|lia]. cbn [bind] in H. rewrite shl_eq in H by lia. cbn [bind] in H.
+    destruct (Z.eqb_spec len bits) as [Heq|Hne].
+    + rewrite orb_true_r in H. inversion H; subst r. subst len. apply canon_range in Hc; [|lia]. unfold cmin, cmax in Hc. cbn [signed_kind] in Hc. lia.
+    + assert (Hlt : len < bits) by lia. pose proof (pow2_le_mono len (bits - 1) ltac:(lia)) as Hle.
+      assert (Hv : v = v mod 2 ^ bits).
+      { apply (canon_eq KI bits); [lia|exact Hc| |rewrite Z.mod_mod by lia; reflexivity].
+        apply canon_range; [lia|]. unfold cmin, cmax. cbn [signed_kind]. lia. }
+      rewrite orb_false_r in H.
+      assert (Hone : wrapc KI bits (1 * 2 ^ (len - 1)) = 2 ^ (len - 1)).
+      { replace (1 * 2 ^ (len - 1)) with (2 ^ (len - 1)) by ring. apply wrapc_in_range; [lia|]. unfold cmin, cmax. cbn [signed_kind]. lia. }
+      rewrite Hone, land_pow2_test in H by lia.
+      destruct (Z.testbit v (len - 1)) eqn:Eb; cbn [negb] in H.
+      * rewrite shl_eq in H by lia. cbn [bind] in H. inversion H; subst r.
+        assert (Hm : wrapc KI bits (-1 * 2 ^ len) = -1 * 2 ^ len) by (apply wrapc_in_range; [lia|]; unfold cmin, cmax; cbn [signed_kind]; lia).
+        assert (Hm' : forall x, x = -1 * 2 ^ len -> wrapc KI bits x = -1 * 2 ^ len) by (intros x ->; exact Hm).
+        match goal with |- context [wrapc KI bits ?x] => rewrite (Hm' x eq_refl) end. rewrite Z.lor_comm, lor_disjoint by lia.
+        (* bit len-1 set: v >= 2^(len-1) *)
+        assert (Hge : 2 ^ (len - 1) <= v).
+        { destruct (Z_lt_ge_dec v (2 ^ (len - 1))) as [Hs|]; [|lia]. rewrite (testbit_small v (len - 1)) in Eb by lia. discriminate. }
+        lia.
+      * inversion H; subst r.
+        assert (Hlt2 : v < 2 ^ (len - 1)).
+        { apply lt_pow2_of_bits; [lia|lia|]. intros m Hm. destruct (Z.eq_dec m (len - 1)) as [->|]; [exact Eb|].
+          destruct (Z_lt_ge_dec m bits); [apply Hhigh; lia|]. apply (testbit_small v bits); lia. }
+        lia.
+  - unfold usub in H. destruct (Z.leb_spec 1 len) as [_|]; [|lia]. cbn [bind] in H. rewrite shl_eq in H by lia. cbn [bind] in H.
+    rewrite land_sign_test in H by assumption.
+    pose proof (pow2_le_mono (len - 1) (bits - 1) ltac:(lia)) as Hle.
+    destruct (Z.testbit v (len - 1)) eqn:Eb; cbn [negb] in H.
+    + rewrite shl_eq in H by lia. cbn [bind] in H.
+      assert (Hm : wrapc KSM bits (-1 * 2 ^ (len - 1)) = - 2 ^ (len - 1)).
+      { replace (-1 * 2 ^ (len - 1)) with (- 2 ^ (len - 1)) by ring. apply wrapc_in_range; [lia|]. unfold cmin, cmax. cbn [signed_kind]. lia. }
+      rewrite Hm, lnot_neg_pow2, Z.land_ones in H by lia.
+      pose proof (Z.mod_pos_bound v (2 ^ (len - 1)) ltac:(lia)).
+      destruct (in_carrier KSM bits _) in H; [|discriminate].
+      assert (Hr : r = - (v mod 2 ^ (len - 1))) by (inversion H; reflexivity). rewrite Hr. lia.
+    + inversion H; subst r.
+      (* sign bit clear and nothing above: 0 <= v < 2^(len-1) *)
+      assert (Hnn : 0 <= v).
+      { apply canon_range in Hc; [|lia]. unfold cmin, cmax in Hc. cbn [signed_kind] in Hc.
+        destruct (Z_lt_ge_dec v 0) as [Hneg|]; [|lia]. exfalso.
+        destruct (Z.eq_dec len bits) as [->|Hne2].
+        - rewrite (testbit_sign_neg v (bits - 1)) in Eb by lia. discriminate.
+        - assert (Hb1 : Z.testbit v (bits - 1) = false) by (apply Hhigh; lia).
+          rewrite (testbit_sign_neg v (bits - 1)) in Hb1 by lia. discriminate. }
+      assert (Hlt2 : v < 2 ^ (len - 1)).
+      { apply lt_pow2_of_bits; [lia|lia|]. intros m Hm. destruct (Z.eq_dec m (len - 1)) as [->|]; [exact Eb|].
+        destruct (Z_lt_ge_dec m bits); [apply Hhigh; lia|].
+        apply canon_range in Hc; [|lia]. unfold cmin, cmax in Hc. cbn [signed_kind] in Hc. apply (testbit_small v (bits - 1)); lia. }
+      lia.
+Qed.
+
+Theorem parse_range k bits data offset len r off' :
+  8 <= bits -> 1 <= len <= bits -> 0 <= offset -> bytes_ok data = true ->
+  parse k bits data offset len = Ok (r, off') -> representable k len r /\ off' = offset + len /\ offset + len <= 8 * zlen data.
+Proof.
+  intros Hb Hl Ho Hbd H. destruct (Z_lt_ge_dec (8 * zlen data) (offset + len)) as [Hov|Hfit].
+  - rewrite parse_overflow in H by exact Hov. discriminate.
+  - destruct (parse_bits k bits data offset len Hb Hl Ho ltac:(lia) Hbd) as [v [Hc [Hv Hparse]]]. rewrite Hparse in H.
+    destruct (sign_fix k bits v len) as [r0|e|] eqn:Es; cbn [bind] in H; try discriminate. inversion H; subst.
+    split; [|split; [reflexivity|lia]]. eapply sign_fix_range; try eassumption.
+    intros m Hm. rewrite Hv by lia. replace (m <? len) with false by lia. reflexivity.
+Qed.
+
+(** a zero-width read (only the MSM decoder can ask for one) is harmless *)
+Lemma parse_ku_zero bits data offset : 8 <= bits -> 1 <= offset -> bytes_ok data = true -> parse KU bits data offset 0 <> Panic.
+Proof.
+  intros Hb Ho Hbd. unfold parse. destruct (_ <? _); [discriminate|].
+  unfold usub. destruct (Z.leb_spec 1 (offset + 0)) as [_|]; [|lia]. cbn [bind].
+  replace ((offset + 0) mod 8) with (offset mod 8) by (f_equal; lia).
+  set (lh := offset mod 8). assert (Hlh : 0 <= lh < 8) by (apply Z.mod_pos_bound; lia).
+  assert (Hd : (offset + 0 - 1) / 8 - offset / 8 + 1 = if lh =? 0 then 0 else 1).
+  { unfold lh. destruct (Z.eqb_spec (offset mod 8) 0); lia. }
+  rewrite Hd. destruct (Z.eqb_spec lh 0) as [E0|E0].
+  - cbn. discriminate.
+  - change (Z.to_nat 1) with 1%nat. cbn [parse_loop]. destruct (nth_error data _) as [d|]; [|cbn; discriminate].
+    unfold parse_step. replace (0 =? 0) with true by reflexivity. replace (0 =? 1 - 1) with true by reflexivity.
+    replace ((8 - lh) mod 8) with (8 - lh) by (rewrite Z.mod_small; lia).
+    unfold usub. destruct (Z.leb_spec lh 8) as [_|]; [|lia]. cbn [bind].
+    destruct (Z.leb_spec (8 - lh) (8 - lh)) as [_|]; [|lia]. cbn [bind].
+    replace (8 - lh - (8 - lh)) with 0 by lia. destruct (Z.leb_spec 0 0) as [_|]; [|lia]. cbn [bind].
+    change (0 - 0) with 0. destruct (Z.leb_spec 0 (8 - lh)) as [_|]; [|lia]. cbn [bind parse_loop sign_fix]. discriminate.
+Qed.
